@@ -17,6 +17,10 @@ use stun_types::message::{IntegrityAlgorithm, Message, MessageType};
 use stun_types::TransportType;
 
 /// size of the address universe (indices are `u8` in the operations)
+thread_local! {
+    /// events and spans the formatting subscriber received during agent calls on this thread
+    pub static TRACE_SEEN: std::cell::Cell<u64> = const { std::cell::Cell::new(0) };
+}
 pub const NADDR: usize = 8192;
 /// the core addresses every generator draws from and every observation covers; the rest of the
 /// universe (indices NCORE..NADDR) is only used by the many-peers shapes and observed once touched
@@ -436,8 +440,11 @@ pub fn build_response(tid: u8, error: bool, seal: RespSeal, fp: bool, salt: u16)
     let named = |k: usize| RefAddr::from_std(&addr(k % NCORE));
     if error {
         if salt % 3 == 0 {
-            tlvs.push(Tlv::new(0x0009, vec![0, 0, 3, 0, b't', b'r', b'y']));
-            tlvs.push(Tlv::new(0x8023, ref_encode(Kind::AlternateServer, &RefVal::Addr(named(salt as usize / 3)), &t).unwrap()));
+            // every error code the library names, and RFC 8489's 300, next to an ALTERNATE-SERVER
+            const CODES: [u16; 17] = [300, 301, 400, 401, 403, 420, 437, 438, 440, 441, 442, 443, 486, 487, 500, 508, 699];
+            let code = CODES[(salt as usize / 3) % CODES.len()];
+            tlvs.push(Tlv::new(0x0009, vec![0, 0, (code / 100) as u8, (code % 100) as u8, b't', b'r', b'y']));
+            tlvs.push(Tlv::new(0x8023, ref_encode(Kind::AlternateServer, &RefVal::Addr(named(salt as usize / 3 + salt as usize / 51)), &t).unwrap()));
             if salt % 2 == 0 {
                 tlvs.push(Tlv::new(0x8003, b"alt.example.org".to_vec()));
             }
@@ -763,7 +770,10 @@ impl<'c> Eng<'c> {
         let r = guard(|| {
             let run = || if trap { clock::trapped(|| f(agent)) } else { (f(agent), 0) };
             if sub {
-                crate::trace_sub::with_subscriber(run)
+                let e0 = crate::trace_sub::events() + crate::trace_sub::spans();
+                let r = crate::trace_sub::with_subscriber(run);
+                TRACE_SEEN.with(|c| c.set(c.get() + crate::trace_sub::events() + crate::trace_sub::spans() - e0));
+                r
             } else {
                 run()
             }
